@@ -98,6 +98,13 @@ def gen_texts(ctx, rng):
             segs.append(docgen.seg(d, 'NTE', 'ADD', v))
             segs.append(docgen.seg(d, 'REF', '87', 'X'))
         out.append(('plain', docgen.encode(segs, d, '')))
+    # 1c. ISA fields that contain the declared component separator (a sender id such as 'RECV:CLAIMS'): the header is never split
+    #     inside, every field comes back character for character
+    for d in (('~', '*', ':'), ('~', '|', '>')):
+        for (snd, rcv) in (('RECV%sCLAIMS    ' % d[2], 'ZZ001          '), ('SENDER/BILLING%s' % d[2], '%sLEAD          ' % d[2])):
+            segs = [docgen.isa('%09d' % rng.randint(1, 999999), d, '00401', sender=snd, receiver=rcv),
+                    docgen.seg(d, 'GS', 'HC', 'S', 'R', '20030828', '1128', '17', 'X', '004010X098A1'), docgen.seg(d, 'REF', '87', 'X')]
+            out.append(('plain', docgen.encode(segs, d, '')))
     # 2. buffer boundaries: terminator at every offset -2..+2 around k*B, k = 1..4
     d = ('~', '*', ':')
     ks = [1, 2, 3, 4] if thorough else [1, 2]
